@@ -1110,8 +1110,13 @@ def trlog(T, check=True, twist=False):
                 return base.skew(w * theta)
         else:
             # general case
-            theta = math.acos((np.trace(R) - 1) / 2)
-            skw = (R - R.T) / 2 / math.sin(theta)
+            # sin(theta) is the norm of the antisymmetric part; acos of the trace alone
+            # is exactly 0 for angles below 1e-8 and the division was then 0 / 0
+            skw = (R - R.T) / 2
+            st = base.norm(base.vex(skw))
+            theta = math.atan2(st, (np.trace(R) - 1) / 2)
+            if st > 0:
+                skw = skw / st
             if twist:
                 return base.vex(skw * theta)
             else:
